@@ -627,3 +627,81 @@ def mismatch_refused(ctx, rid, body, operand_pred, key, what, sinks=None, floor=
                f"{what}: `{body.name}` can still succeed when `{r0[:80]}` differs from `{r1[:80]}`",
                where=f"{body.file}:{c.line}", sample=f"{r0[:60]} vs {r1[:60]}: sink unreachable on the != edge")
     return sites
+
+
+# ---------------------------------------------------------------- loops
+def loops_over(fv, iter_pred):
+    """`for x in <collection>` loops: (header_block, next_call, body_entry_edges, exit_edges) for every
+    Iterator::next call whose iterator expression rendering satisfies iter_pred"""
+    out = []
+    for bi, c in fv.b.calls():
+        nm = c.callee.name if c.callee else ""
+        if nm.endswith("Iterator>::next") or nm.endswith("::next") and "iter" in nm.lower():
+            if not c.args:
+                continue
+            src = render(fv.expr(c.args[0]))
+            if iter_pred(src):
+                out.append((bi, c, fv.result_edges(bi, c, "ok"), fv.result_edges(bi, c, "err")))
+    return out
+
+
+def iteration_possible(fv, header, body_edges, cut):
+    """can one iteration of the loop complete (control returns to the header) avoiding `cut` edges"""
+    for (u, v) in body_edges:
+        if (u, v) in cut:
+            continue
+        if header in fv.reach(v, cut_edges=cut):
+            return True
+    return False
+
+
+def element_scenario_refused(ctx, rid, body, iter_pred, scenario, key, what, named=True, floor=1):
+    """per-element bound: in the loop over the collection, an iteration whose element satisfies `scenario`
+    cannot complete (it ends in a refusal)"""
+    fv = fnview(ctx, body)
+    if named:
+        fv = fv.named()
+    ls = loops_over(fv, iter_pred)
+    ctx.ob(rid, len(ls) >= floor, f"{key}/loop-present", f"{what}: loop over the collection not found in `{body.name}`",
+           where=f"{body.file}:{body.line}", sample=f"{len(ls)} loop(s)")
+    assum = [atoms.parse_atom(a) if isinstance(a, str) else a for a in scenario]
+    cut = atoms.scenario_cut(fv, assum)
+    for h, c, be, ee in ls:
+        poss = iteration_possible(fv, h, be, cut)
+        ctx.ob(rid, bool(cut) and not poss, key, what, where=f"{body.file}:{c.line}",
+               detail={"scenario": scenario, "edges_cut": len(cut)},
+               sample={"scenario": scenario, "edges_cut": len(cut), "loop_line": c.line})
+    return ls
+
+
+def iteration_must_pass(ctx, rid, body, iter_pred, guard_pred, guard_name, key, what):
+    """every completed iteration passes Ok of the guard call"""
+    fv = fnview(ctx, body)
+    ls = loops_over(fv, iter_pred)
+    ge = guard_edges(ctx, fv, guard_pred, 0)
+    for h, c, be, ee in ls:
+        poss = iteration_possible(fv, h, be, ge)
+        ctx.ob(rid, bool(ge) and not poss, key, what, where=f"{body.file}:{c.line}",
+               sample=f"each iteration passes Ok({guard_name})")
+    ctx.ob(rid, len(ls) >= 1, f"{key}/loop-present", f"{what}: loop not found", where=f"{body.file}:{body.line}")
+
+
+def named_scenario_refused(ctx, rid, body, scenario, key, what, sinks=None, policy=True, depth=0, need_cut=True):
+    """scenario refusal evaluated over the named view (user variable names are symbols)"""
+    fv0 = fnview(ctx, body, policy)
+    fv = fv0.named()
+    assum = [atoms.parse_atom(a) if isinstance(a, str) else a for a in scenario]
+    cut = atoms.scenario_cut(fv, assum)
+    if depth > 0:
+        cut |= _callee_refusal_cuts(ctx, fv0, assum, depth)
+    live = fv.reach(0, cut_edges=cut)
+    sinks = sinks if sinks is not None else success_blocks(fv)
+    bad = [s for s in sinks if s[0] in live]
+    detail = None
+    if bad or (need_cut and not cut):
+        p = fv.path(0, bad[0][0], cut_edges=cut) if bad else None
+        detail = {"scenario": scenario, "witness_path_lines": fv.lines_of_path(p), "edges_cut": len(cut)}
+    ctx.ob(rid, (bool(cut) or not need_cut) and not bad, key, what,
+           where=f"{body.file}:{bad[0][1] if bad else body.line}", detail=detail,
+           sample={"scenario": scenario, "edges_cut": len(cut)})
+    return not bad
